@@ -78,6 +78,14 @@ def o131(ctx):
         if i % 9 == 1:
             for A, c in zip(ax, CEN.cols):
                 env[A.sym.args[0]] = env[c.args[0]]  # the centre voxel
+        if i % 9 in (2, 5):
+            # half-integer radius (the shell mask asks for radius +- thickness/2): a voxel on an axis at distance k+1 is outside r = k + 0.5
+            k_ = float(rng.integers(1, 5))
+            for A, c in zip(ax, CEN.cols):
+                env[A.sym.args[0]] = env[c.args[0]]
+            a0 = ax[i % 3]
+            env[a0.sym.args[0]] = env[CEN.cols[i % 3].args[0]] + (k_ + 1 if i % 9 == 2 else k_)
+            env["r"] = k_ + 0.5
     decide(ctx, q, v, want, envs, "sphere: distance <= r", m, fn)
     # ---- cylinder
     q = CM + "cylindrical_mask"
